@@ -282,7 +282,6 @@ func m1cEval(in []int64) (out []int64) {
 // model output has 7 trailing state fields after -2 that the API cannot show; cut them off
 // on the model side instead: the harness prints only -2, the comparison is done on the prefix.
 
-
 // m1cMonitor evaluates the property conclusions directly on what the implementation did
 // (no model involved). Returns kind "" when everything holds.
 func m1cMonitor(in []int64) func(obs []int64) (string, string) {
@@ -540,8 +539,78 @@ func m1cGen(cfg config, emit func(Case)) {
 	}
 }
 
+// m1cFreshEval (C16, restart freshness): the part of the history after its last Stop-then-Start is run twice on the
+// implementation -- on the restarted endpoint and on a fresh endpoint of the same kind, queue capacity, timeout and
+// network condition -- and what the two show, event by event, is compared.  [2]: no restart in the history.
+func m1cFreshEval(in []int64) []int64 {
+	variant, capacity, timeout, labs := m1cDecode(in)
+	cut := -1
+	for i := 0; i+1 < len(labs); i++ {
+		if labs[i][0] == 8 && labs[i+1][0] == 9 {
+			cut = i + 2
+		}
+	}
+	if cut < 0 {
+		return []int64{2}
+	}
+	failw := int64(0)
+	for _, l := range labs[:cut] {
+		if l[0] == 7 {
+			failw = l[1]
+		}
+	}
+	run := func(pre, suf [][]int64) []int64 {
+		r := newM1cRun(variant, capacity, timeout)
+		for _, l := range pre {
+			r.step(l)
+		}
+		mark := len(r.out)
+		for _, l := range suf {
+			r.step(l)
+		}
+		out := append([]int64(nil), r.finish()[mark:]...)
+		if r.started && !r.hung {
+			sched.Call(func() { r.ep.Stop() })
+			sched.Settle()
+		}
+		return out
+	}
+	a := run(labs[:cut], labs[cut:])
+	b := run([][]int64{{7, failw}, {9}}, labs[cut:])
+	if len(a) != len(b) {
+		return []int64{0}
+	}
+	for i := range a {
+		if a[i] != b[i] {
+			return []int64{0}
+		}
+	}
+	return []int64{1}
+}
+
+func m1cFreshGen(cfg config, emit func(Case)) {
+	m1cGen(cfg, func(c Case) {
+		_, _, _, labs := m1cDecode(c.Input)
+		for i := 0; i+1 < len(labs); i++ {
+			if labs[i][0] == 8 && labs[i+1][0] == 9 {
+				emit(Case{Class: "restart", Input: c.Input, Comment: c.Comment, Check: func(obs []int64) (string, string) {
+					if len(obs) == 1 && obs[0] == 0 {
+						return "C16-restart-not-fresh", "after Stop and Start the endpoint does not behave like a fresh one on the rest of this history"
+					}
+					if len(obs) == 1 && obs[0] == -7 {
+						return "C16-panic", "a library goroutine panicked"
+					}
+					return "", ""
+				}})
+				return
+			}
+		}
+	})
+}
+
 func init() {
 	properties["m1c"] = []*Entry{{Name: "m1c", Eval: m1cEval, Gen: m1cGen, Isolated: true},
+		{Name: "m1c_fresh", Eval: m1cFreshEval, Gen: m1cFreshGen, Isolated: true},
 		// the same histories, asked of the model only: is the executed schedule in class S0 and does it end quiescent?
 		{Name: "m1c_h", Eval: func(in []int64) []int64 { return []int64{1, 1} }, Gen: m1cGen}}
 	_ = sort.Ints
